@@ -70,7 +70,7 @@ def dec_value(t):
 
 def rand_value(rng):
     return rng.choice([
-        rng.randrange(-1000, 100000), rng.random() * 1000, rng.choice(["a", "héllo", "multi\nline", "x" * 40, "", "\U0001F600"]),
+        rng.randrange(-1000, 100000), round(rng.random() * 1000, 3), rng.choice(["a", "héllo", "multi\nline", "x" * 40, "", "\U0001F600"]),
         rng.random() < 0.5, datetime(2000 + rng.randrange(30), rng.randrange(1, 13), rng.randrange(1, 28), rng.randrange(24)),
         timedelta(seconds=rng.randrange(0, 10 ** 6)), rng.randrange(10 ** 9, 10 ** 12), 0.5, "dup", "dup",
     ])
@@ -398,6 +398,15 @@ class Checker:
             return [("saved-package-unreadable", "")]
         self.remember(dst_path, dst)     # the next generation's source
         name = case.get("name", "?")
+        try:
+            return self._check(case, name, a, dst, dst_path, alloc, keep)
+        except Exception as e:  # noqa: BLE001 - a package the checks cannot digest is a finding, not a machinery failure
+            import traceback
+            ctx.oracle_fail(f"package-check-crashed:{type(e).__name__}", case, traceback.format_exc()[-600:])
+            return [(f"package-check-crashed:{type(e).__name__}", str(e)[:100])]
+
+    def _check(self, case, name, a, dst, dst_path, alloc, keep):
+        ctx = self.ctx
         d_pkg = A.py_validate_pkg(a)
         self.queue("package/validate", name, A.pkg_line(a), A.render(d_pkg))
         # the same package with the known finding's references allowed: must be clean (closure_partial)
@@ -424,7 +433,7 @@ class Checker:
         ctx.nontrivial(("pkg", name, len(a["objects"]), a["last"]))
         sigs = self.signatures(a, defects, alloc)
         if keep and len(self.abstracts) < 12:
-            self.abstracts.append((name, a))
+            self.abstracts.append((name, dict(a, objects=[{k: v for k, v in o.items() if k not in ("msg", "bytes")} for o in a["objects"]])))
         self.sample_rows(name, dst)
         # reopen
         try:
@@ -451,7 +460,7 @@ class Checker:
         for o in dst.objects:
             if o["tname"] != "TST.Tile":
                 continue
-            tile = dst.msgs[o["id"]]
+            tile = o["msg"]
             infos = list(tile.rowInfos)
             for ri in infos[:: max(1, len(infos) // 3)][:4]:
                 if not ri.has_wide_offsets:
@@ -765,10 +774,22 @@ def run(ctx: Ctx) -> int:
         ctx.obligation_errors.append(str(e))
         exe = None
     chk = Checker(ctx, exe)
+    warnings.simplefilter("ignore")
+    import time as _time
+    phase = {}
+    t_phase = [_time.time()]
+
+    def mark(name):
+        phase[name] = round(_time.time() - t_phase[0], 1)
+        t_phase[0] = _time.time()
+        ctx.extra["phase_s"] = phase
+        ctx.notes[:] = [n for n in ctx.notes if not n.startswith("phase seconds")] + [f"phase seconds: {phase}"]
+    mark("coq+extract")
 
     # ---- A. identifier allocation
     idalloc_stream(ctx, exe)
 
+    mark("idalloc")
     # ---- B. corpus: fixed cases that must always run (each edit kind alone on the default document)
     singles = [
         ("plain", []), ("add-table", [["NT", 0, 3, 3]]), ("add-sheet", [["NS", 4, 2]]),
@@ -787,6 +808,7 @@ def run(ctx: Ctx) -> int:
         report(ctx, chk, case, run_case(ctx.tmp, case, chk), rerun=True)
     ctx.dist("cases:single-edit", len(singles))
 
+    mark("single-edits")
     # ---- C. random histories
     nh = 70 if ctx.quick else 900
     for i in range(nh):
@@ -796,6 +818,7 @@ def run(ctx: Ctx) -> int:
             chk.flush()
     ctx.dist("cases:random-histories", nh)
 
+    mark("random-histories")
     # ---- D. shapes across tile boundaries
     for (nr, nc) in (SHAPES_QUICK if ctx.quick else SHAPES_FULL):
         ops = [["W", 0, rng.choice([0, nr - 1, rng.randrange(nr)]), rng.choice([0, nc - 1, rng.randrange(nc)]), enc_value(rand_value(rng))] for _ in range(12)]
@@ -807,6 +830,7 @@ def run(ctx: Ctx) -> int:
         ctx.dist("cases:shapes")
         chk.flush()
 
+    mark("shapes")
     # ---- E. fixtures: plain re-save, and re-save after an edit
     fx = fixtures()
     always = [f for f in fx if Path(f).name in ("issue-3.numbers", "test-1.numbers", "create-formulas.numbers", "issue-14.numbers")]
@@ -829,9 +853,11 @@ def run(ctx: Ctx) -> int:
         ctx.dist("cases:fixture-edit")
         chk.flush()
 
+    mark("fixtures")
     # ---- F. seeded defects (abstract level): both checkers must agree on non-empty reports
     seeded_defects(ctx, chk)
     chk.flush()
+    mark("seeded")
     return common.finish(ctx, search)
 
 
